@@ -23,6 +23,10 @@
 #include <tsolvers/RDLTHandler.h>
 #include <unsatcores/UnsatCoreBuilder.h>
 
+#ifdef OPENSMT_VERIF_TRACE
+#include <logics/VerifTraceTerms.h>
+#endif
+
 namespace opensmt {
 
 MainSolver::MainSolver(Logic & logic, SMTConfig & conf, std::string name)
@@ -144,6 +148,21 @@ sstat MainSolver::simplifyFormulas() {
         PreprocessingContext context{.frameCount = i, .perPartition = trackPartitions()};
         preprocessor.prepareForProcessingFrame(i);
         firstNotSimplifiedFrame = i + 1;
+#ifdef OPENSMT_VERIF_TRACE
+        if (veriftrace::on()) {
+            std::ostringstream os;
+            os << "{\"e\":\"frame\",\"idx\":" << i << ",\"id\":" << frames[i].getId() << ",\"perPartition\":"
+               << (context.perPartition ? "true" : "false") << ",\"asserted\":[";
+            bool first = true;
+            for (PTRef fla : frames[i].formulas) {
+                if (not first) { os << ','; }
+                first = false;
+                os << veriftrace::termJson(logic, fla);
+            }
+            os << "]}";
+            veriftrace::emit(os.str());
+        }
+#endif
         if (context.perPartition) {
             vec<PTRef> frameFormulas;
             for (PTRef fla : frames[i].formulas) {
@@ -311,6 +330,11 @@ std::unique_ptr<InterpolationContext> MainSolver::getInterpolationContext() {
 }
 
 sstat MainSolver::giveToSolver(PTRef root, FrameId push_id) {
+#ifdef OPENSMT_VERIF_TRACE
+    if (veriftrace::on()) {
+        veriftrace::emit("{\"e\":\"give\",\"id\":" + std::to_string(push_id) + ",\"root\":" + veriftrace::termJson(logic, root) + "}");
+    }
+#endif
 
     struct ClauseCallBack : public Cnfizer::ClauseCallBack {
         std::vector<vec<Lit>> clauses;
@@ -346,6 +370,11 @@ sstat MainSolver::check() {
         printf("; %s query time so far: %f\n", solver_name.c_str(), query_timer.getTime());
         StopWatch sw(query_timer);
     }
+#ifdef OPENSMT_VERIF_TRACE
+    if (veriftrace::on() and isLastFrameUnsat()) {
+        veriftrace::emit("{\"e\":\"check\",\"ret\":\"unsat\",\"early\":true,\"level\":" + std::to_string(getAssertionLevel()) + "}");
+    }
+#endif
     if (isLastFrameUnsat()) { return s_False; }
     sstat rval = simplifyFormulas();
 
@@ -360,6 +389,13 @@ sstat MainSolver::check() {
             rememberUnsatFrame(smt_solver->getConflictFrame());
         }
     }
+#ifdef OPENSMT_VERIF_TRACE
+    if (veriftrace::on()) {
+        veriftrace::emit(std::string("{\"e\":\"check\",\"ret\":\"") + (rval == s_True ? "sat" : rval == s_False ? "unsat" : "unknown") +
+                         "\",\"early\":false,\"level\":" + std::to_string(getAssertionLevel()) +
+                         ",\"conflictFrame\":" + std::to_string(rval == s_False ? smt_solver->getConflictFrame() : 0) + "}");
+    }
+#endif
 
     return rval;
 }
